@@ -46,7 +46,7 @@ def _replay(job):
 
 
 NO_PUBLIC_REPLAY = ("trace_t1", "trace_t2", "read_model", "unmapped_var", "soft_guard", "soft_missing", "soft_not_maximal", "soft_priority",
-                    "soft_outcome", "bound_excludes", "order_violation", "swizzle_target", "not_idle", "hook_order", "hook_count", "list_facade", "dist_weights", "not_randomised")
+                    "soft_outcome", "bound_excludes", "order_violation", "swizzle_target", "not_idle", "hook_order", "hook_count", "list_facade", "dist_weights", "not_randomised", "model_field_missing")
 
 
 def run_specs(chk, specs, kinds, opts=None, sig_fn=None, nproc=None, chunk=None, extra_handler=None):
